@@ -12,7 +12,16 @@
 (*                       Broadcast   cond.Broadcast under cond.L           *)
 (*  InvokeBackgroundTask LoadOuter   for atomic.Load(prio) > 0 (no lock)   *)
 (*                       CondCheck   cond.L: if Load(prio) > 0 { Wait() }  *)
-(*                       AcquireSem  backgroundSem.Acquire                 *)
+(*                       AcquireSem  backgroundSem.Acquire, a slot is free *)
+(*                       AcquireBlock  ... no slot free: queued inside     *)
+(*                                   Acquire; the slot is handed over by   *)
+(*                                   the ReleaseSem of another invocation  *)
+(*                       AcquireTimeout  exists only with                  *)
+(*                                   AcquireIgnoresTimeout = FALSE: the    *)
+(*                                   timeout ctx is passed to Acquire, it  *)
+(*                                   expires while queued, Acquire fails   *)
+(*                                   without a slot and the result is      *)
+(*                                   ignored (pc "decidex")                *)
 (*                       Decide      under notifyMu: ch := notify channel, *)
 (*                                   tasks := prio; tasks>0 => give up,    *)
 (*                                   else go do(ctx)                       *)
@@ -59,6 +68,7 @@ CONSTANTS
     UseSem,            \* TRUE = bodies are started under the semaphore (as in the code)
     NotifyArm,         \* TRUE = select has the <-ch arm (as in the code)
     AwaitBodyOnTimeout,\* TRUE = no <-ctx.Done() arm: after the deadline the invocation still waits for the body (as in the code)
+    AcquireIgnoresTimeout, \* TRUE = Acquire(context.Background()) (as in the code); FALSE = Acquire(timeout ctx), result ignored
     Timeouts,          \* TRUE = the deadline of a body's ctx may pass while it runs
     BroadcastAll       \* TRUE = cond.Broadcast (as in the code); FALSE = Signal (wakes one)
 
@@ -158,14 +168,31 @@ AcquireSem(i) ==
     /\ UNCHANGED <<prio, epoch, active, ndo, dg, seen, bodies>>
     /\ last' = [act |-> "AcquireSem", i |-> i]
 
+\* no slot is free: the invocation is queued inside Acquire
+Waiters == {i \in Invs : pc[i] = "acquiring"}
+AcquireBlock(i) ==
+    /\ pc[i] = "acquire"
+    /\ UseSem /\ sem >= Concurrency
+    /\ Goto(i, "acquiring")
+    /\ UNCHANGED <<prio, epoch, sem, active, ndo, dg, seen, bodies>>
+    /\ last' = [act |-> "AcquireBlock", i |-> i]
+
+\* NOT in the code: the ctx given to Acquire expires while queued; Acquire returns an error that is ignored
+AcquireTimeout(i) ==
+    /\ ~AcquireIgnoresTimeout /\ Timeouts
+    /\ pc[i] = "acquiring"
+    /\ Goto(i, "decidex")
+    /\ UNCHANGED <<prio, epoch, sem, active, ndo, dg, seen, bodies>>
+    /\ last' = [act |-> "AcquireTimeout", i |-> i]
+
 \* t = the value of `tasks` the code read under notifyMu
 DecideRead(i, t) ==
-    /\ pc[i] = "decide"
+    /\ pc[i] \in {"decide", "decidex"}
     /\ seen' = [seen EXCEPT ![i] = epoch]
     /\ IF t > 0 /\ RecheckUnderLock
        THEN /\ Goto(i, "relretry") /\ UNCHANGED bodies
        ELSE /\ Goto(i, "select")
-            /\ bodies' = [bodies EXCEPT ![i] = Append(@, [st |-> "spawned", cx |-> FALSE])]
+            /\ bodies' = [bodies EXCEPT ![i] = Append(@, [st |-> "spawned", cx |-> pc[i] = "decidex"])]
     /\ UNCHANGED <<prio, epoch, sem, active, ndo, dg>>
     /\ last' = [act |-> "Decide", i |-> i, tasks |-> t, start |-> ~(t > 0 /\ RecheckUnderLock)]
 \* the read is atomic with respect to Do (notifyMu); here also with respect to the lock-free decrement
@@ -213,12 +240,16 @@ AwaitBody(i) ==
     /\ UNCHANGED <<prio, epoch, sem, active, ndo, dg, seen, bodies>>
     /\ last' = [act |-> "AwaitBody", i |-> i]
 
-ReleaseSem(i) ==
+\* w = the queued invocation the slot is handed to (0 = nobody is queued: the slot becomes free)
+ReleaseW(i, w) ==
     /\ pc[i] \in {"relretry", "relfinish"}
-    /\ sem' = sem - 1
-    /\ Goto(i, IF pc[i] = "relretry" THEN "wait" ELSE "exit")
+    /\ LET nxt == IF pc[i] = "relretry" THEN "wait" ELSE "exit" IN
+       IF w = 0
+       THEN /\ Waiters = {} /\ sem' = sem - 1 /\ Goto(i, nxt)
+       ELSE /\ w \in Waiters /\ sem' = sem /\ pc' = [pc EXCEPT ![i] = nxt, ![w] = "decide"]
     /\ UNCHANGED <<prio, epoch, active, ndo, dg, seen, bodies>>
-    /\ last' = [act |-> "ReleaseSem", i |-> i, fin |-> pc[i] = "relfinish"]
+    /\ last' = [act |-> "ReleaseSem", i |-> i, fin |-> pc[i] = "relfinish", w |-> w]
+ReleaseSem(i) == \E w \in (IF Waiters = {} THEN {0} ELSE Waiters) : ReleaseW(i, w)
 
 Return(i) ==
     /\ pc[i] = "exit"
@@ -248,6 +279,8 @@ Next ==
     \/ \E i \in Invs : LoadOuter(i)
     \/ \E i \in Invs : CondCheck(i)
     \/ \E i \in Invs : AcquireSem(i)
+    \/ \E i \in Invs : AcquireBlock(i)
+    \/ \E i \in Invs : AcquireTimeout(i)
     \/ \E i \in Invs : Decide(i)
     \/ \E i \in Invs : SelNotify(i)
     \/ \E i \in Invs : SelDone(i)
@@ -265,7 +298,7 @@ Spec == Init /\ [][Next]_vars
 Fair ==
     /\ WF_vars(Expire) /\ WF_vars(DecrAdd) /\ WF_vars(Broadcast)
     /\ \A i \in Invs :
-        /\ WF_vars(LoadOuter(i)) /\ WF_vars(CondCheck(i)) /\ WF_vars(AcquireSem(i)) /\ WF_vars(Decide(i))
+        /\ WF_vars(LoadOuter(i)) /\ WF_vars(CondCheck(i)) /\ WF_vars(AcquireSem(i)) /\ WF_vars(AcquireBlock(i)) /\ WF_vars(Decide(i))
         /\ WF_vars(SelNotify(i)) /\ WF_vars(SelDone(i)) /\ WF_vars(AwaitBody(i)) /\ WF_vars(SelCtxDone(i))
         /\ WF_vars(ReleaseSem(i)) /\ WF_vars(Return(i))
         /\ \A n \in Bn : WF_vars(BodyBegin(i, n)) /\ WF_vars(BodyEnd(i, n))
@@ -274,7 +307,7 @@ LiveSpec == Spec /\ Fair
 FairNoBodyEnd ==
     /\ WF_vars(Expire) /\ WF_vars(DecrAdd) /\ WF_vars(Broadcast)
     /\ \A i \in Invs :
-        /\ WF_vars(LoadOuter(i)) /\ WF_vars(CondCheck(i)) /\ WF_vars(AcquireSem(i)) /\ WF_vars(Decide(i))
+        /\ WF_vars(LoadOuter(i)) /\ WF_vars(CondCheck(i)) /\ WF_vars(AcquireSem(i)) /\ WF_vars(AcquireBlock(i)) /\ WF_vars(Decide(i))
         /\ WF_vars(SelNotify(i)) /\ WF_vars(SelDone(i)) /\ WF_vars(AwaitBody(i)) /\ WF_vars(SelCtxDone(i))
         /\ WF_vars(ReleaseSem(i)) /\ WF_vars(Return(i))
 CancelSpec == Spec /\ FairNoBodyEnd
@@ -285,7 +318,7 @@ CancelSpec == Spec /\ FairNoBodyEnd
 
 \* a body is started only when no prioritized task is in progress or inside its silence period
 StartOnlyWhenQuiet ==
-    [][\A i \in Invs : (pc[i] = "decide" /\ pc'[i] = "select") => Quiet]_vars
+    [][\A i \in Invs : (pc[i] \in {"decide", "decidex"} /\ pc'[i] = "select") => Quiet]_vars
 \* at most `Concurrency` bodies run at once
 Bounded == SumRunning(Invs) <= Concurrency
 \* two executions of one invoked task never overlap
@@ -303,7 +336,7 @@ EventuallyCompletes ==
 (* internal consistency (documents the design, not part of the property) *)
 TypeOK ==
     /\ prio \in Int /\ sem \in 0..Cardinality(Invs) /\ active \in 0..MaxDo
-    /\ \A i \in Invs : pc[i] \in {"wait", "condchk", "sleeping", "acquire", "decide", "select", "awaitbody",
+    /\ \A i \in Invs : pc[i] \in {"wait", "condchk", "sleeping", "acquire", "acquiring", "decide", "decidex", "select", "awaitbody",
                                    "relretry", "relfinish", "exit", "returned"}
 PrioAccount == DecrAfterSilence => prio = active + dg.sleep + dg.awake
 SemAccount == sem = Cardinality({i \in Invs : pc[i] \in {"decide", "select", "awaitbody", "relretry", "relfinish"}})
